@@ -21,7 +21,12 @@ Section Statements.
   Variable cmaps : frame -> list chan.
   Variable rough : chan -> option peak.
   Variable refine : chan -> peak -> inst.
+  Variable ginst : Type.
+  Variable gmatch : frame -> peak -> option ginst.
 
+  Notation co_batch := (centroid_only_batch frame peak detect value ginst gmatch).
+  Notation co_one := (centroid_only_one frame peak detect value ginst gmatch).
+  Notation strip := (strip_padding peak ginst).
   Notation td_batch := (topdown_batch frame peak inst detect value crop_infer).
   Notation td_one := (topdown_one frame peak inst detect value crop_infer).
   Notation td_stream := (topdown_stream frame peak inst detect value crop_infer).
@@ -114,6 +119,51 @@ Section Statements.
     single_batch frame peak inst chan cmaps rough refine C xs
     = map (single_one frame peak inst chan cmaps rough refine) xs.
   Proof. exact (single_batch_is_per_frame frame peak inst chan cmaps rough refine). Qed.
+  (* centroid-only top-down (centered-instance model = None): CentroidCrop(return_crops=False)
+     + FindInstancePeaksGroundTruth.  `gmatch img p` = the labelled instance of the SAME sample
+     nearest to centroid p (ANY function); M = width of the labels file's instance table.
+     The batch output (one dictionary; entry b = (frame_idx, video_idx, centroid row, instance
+     rows)) is, up to the NaN padding of the centroid row, the list of per-frame results:
+     the sequential counts / parsed walk gives every sample its own matches. *)
+  Theorem c12_centroid_only_batch_is_per_frame : forall mi M fs,
+    map strip (co_batch mi M fs) = map (co_one mi M) fs.
+  Proof. exact (centroid_only_batch_is_per_frame frame peak detect value ginst gmatch). Qed.
+
+  Theorem c12_centroid_only_independent_of_batch_mates : forall mi M xs1 x xs2,
+    map strip (co_batch mi M (xs1 ++ [x] ++ xs2))
+    = map strip (co_batch mi M xs1) ++ map strip (co_batch mi M [x]) ++ map strip (co_batch mi M xs2).
+  Proof. exact (centroid_only_mates frame peak detect value ginst gmatch). Qed.
+
+  Theorem c12_centroid_only_independent_of_batch_size : forall mi M n fs, (0 < n)%nat ->
+    map strip (centroid_only_stream frame peak detect value ginst gmatch mi M n fs) = map (co_one mi M) fs.
+  Proof. exact (centroid_only_stream_any_batch_size frame peak detect value ginst gmatch). Qed.
+
+  Theorem c12_centroid_only_permutation : forall mi M fs fs', Permutation fs fs' ->
+    Permutation (map strip (co_batch mi M fs)) (map strip (co_batch mi M fs')).
+  Proof. exact (centroid_only_perm frame peak detect value ginst gmatch). Qed.
+
+  (* entry b carries frame b's indices; its instance rows are the matches of frame b's own kept
+     centroids (a frame without detections: all-NaN rows, its batch-mates untouched) *)
+  Theorem c12_centroid_only_indices : forall mi M fs b s,
+    nth_error fs b = Some s ->
+    exists row, nth_error (co_batch mi M fs) b
+                = Some (s_fidx frame s, s_vidx frame s, row,
+                        pad_to ginst M (somes (map (gmatch (s_img frame s))
+                                                   (kept peak value mi (detect (s_img frame s))))))
+                /\ somes row = kept peak value mi (detect (s_img frame s)).
+  Proof. exact (centroid_only_indices frame peak detect value ginst gmatch). Qed.
+
+  (* FindInstancePeaksGroundTruth alone, for ANY centroid table: sample b's rows are the matches
+     of row b with image b (NaN-padded / cut to M) *)
+  Theorem c12_gt_peaks_split_by_sample : forall M rows imgs, length rows = length imgs ->
+    gt_parse ginst M (gt_flat frame peak ginst gmatch 0%nat rows imgs) 0%nat 0%nat (length imgs)
+    = map (fun r : list (option peak) * frame =>
+             pad_to ginst M (row_matches frame peak ginst gmatch (snd r) (fst r))) (combine rows imgs).
+  Proof. exact (gt_parse_is_per_row frame peak ginst gmatch). Qed.
+
+  Theorem c12_pad_to_keeps_first : forall M l,
+    length (pad_to ginst M l) = M /\ somes (pad_to ginst M l) = firstn M l.
+  Proof. intros. split; [apply pad_to_length|apply somes_pad_to]. Qed.
 End Statements.
 
 Print Assumptions c12_split_by_sample.
@@ -132,10 +182,26 @@ Print Assumptions c12_bottomup_independent_of_batch_mates.
 Print Assumptions c12_bottomup_permutation.
 Print Assumptions c12_crop_index_own_sample.
 Print Assumptions c12_single_batch_is_per_frame.
+Print Assumptions c12_centroid_only_batch_is_per_frame.
+Print Assumptions c12_centroid_only_independent_of_batch_mates.
+Print Assumptions c12_centroid_only_independent_of_batch_size.
+Print Assumptions c12_centroid_only_permutation.
+Print Assumptions c12_centroid_only_indices.
+Print Assumptions c12_gt_peaks_split_by_sample.
+Print Assumptions c12_pad_to_keeps_first.
 
 (* non-vacuity: a concrete mixed batch through the executable model *)
 Example ex_stream :
   run (CStream (Some 1%nat) 2%nat
          [(7%nat, 0%nat, [(0%nat, 1 # 2); (1%nat, 3 # 4)]); (8%nat, 1%nat, []); (9%nat, 0%nat, [(0%nat, 1 # 3)])])
   = RStream [(7%nat, 0%nat, [1%nat]); (9%nat, 0%nat, [0%nat])].
+Proof. vm_compute. reflexivity. Qed.
+
+(* centroid-only batch: frame 8 has no detection (all-NaN rows), frame 7 has two centroids with
+   max_instances = 1 (the higher one is kept and matched), M = 2 instance rows *)
+Example ex_centroid_only :
+  run (CGt (Some 1%nat) 2%nat 2%nat
+         [(7%nat, 0%nat, [(0%nat, 1 # 2); (1%nat, 3 # 4)]); (8%nat, 1%nat, []); (9%nat, 0%nat, [(0%nat, 1 # 3)])])
+  = RGt [(7%nat, 0%nat, [Some 1%nat], [Some 1%nat; None]); (8%nat, 1%nat, [None], [None; None]);
+         (9%nat, 0%nat, [Some 0%nat], [Some 0%nat; None])].
 Proof. vm_compute. reflexivity. Qed.
